@@ -631,6 +631,17 @@ class BitStream(ConstBitStream, bitstring.BitArray):
         super().prepend(bs)
         self._pos = 0
 
+    def __setattr__(self, attribute, value) -> None:
+        try:
+            # Slots and ordinary properties are set in the usual way.
+            object.__setattr__(self, attribute, value)
+        except AttributeError:
+            # A dtype name with a length, e.g. s.uint8 = 3, which can change the length of the bitstring.
+            length_before = len(self)
+            super().__setattr__(attribute, value)
+            if len(self) != length_before:
+                self._pos = 0
+
     def __setitem__(self, /, key: Union[slice, int], value: BitsType) -> None:
         length_before = len(self)
         super().__setitem__(key, value)
